@@ -624,7 +624,11 @@ func (g *Gen) instrWrites(fn *ssa.Function, in ssa.Instruction, cells map[*ssa.A
 	case *ssa.Defer:
 		g.callWrites(&x.Call, cells, heaps, direct)
 	case *ssa.Go:
-		g.callWrites(&x.Call, cells, heaps, direct)
+		// a detached thread (contract marked 'thread') runs concurrently: its writes are interference
+		// (A-SEQ), not part of the spawner's sequential effect
+		if !g.isThreadCallee(x.Call.Value) {
+			g.callWrites(&x.Call, cells, heaps, direct)
+		}
 	case *ssa.RunDefers:
 		for _, b := range fn.Blocks {
 			for _, i2 := range b.Instrs {
@@ -635,12 +639,28 @@ func (g *Gen) instrWrites(fn *ssa.Function, in ssa.Instruction, cells map[*ssa.A
 		}
 	case *ssa.MakeClosure:
 		// bound variables are heap cells; closure may run later
-		if f, ok := x.Fn.(*ssa.Function); ok {
+		if f, ok := x.Fn.(*ssa.Function); ok && !g.isThreadCallee(x) {
 			for k := range g.modOf(f) {
 				heaps[k] = true
 			}
 		}
 	}
+}
+
+// isThreadCallee: v is a function (or closure over one) whose contract is marked 'thread'.
+func (g *Gen) isThreadCallee(v ssa.Value) bool {
+	var f *ssa.Function
+	switch x := v.(type) {
+	case *ssa.Function:
+		f = x
+	case *ssa.MakeClosure:
+		f, _ = x.Fn.(*ssa.Function)
+	}
+	if f == nil {
+		return false
+	}
+	con := g.spec.Contracts[funcKey(f)]
+	return con != nil && con.Thread
 }
 
 func (g *Gen) addrWrites(addr ssa.Value, cells map[*ssa.Alloc]bool, heaps map[string]bool, direct map[*ssa.Alloc]bool) {
@@ -655,12 +675,19 @@ func (g *Gen) addrWrites(addr ssa.Value, cells map[*ssa.Alloc]bool, heaps map[st
 		}
 		g.typeHeaps(deref(a.Type()), heaps)
 	case *ssa.FieldAddr:
+		if prefix, ft, ok := g.fieldAddrPrefix(a, direct); ok {
+			for _, lf := range g.leavesOf(prefix, ft) {
+				heaps[lf.name] = true
+			}
+			return
+		}
 		if isPlaceInstr(a.X, direct) {
 			g.addrWrites(a.X, cells, heaps, direct)
 			return
 		}
-		hn, _ := g.fieldHeap(deref(a.X.Type()), a.Field)
-		heaps[hn] = true
+		for _, lf := range g.fieldLeaves(deref(a.X.Type()), a.Field) {
+			heaps[lf.name] = true
+		}
 	case *ssa.IndexAddr:
 		if sl, ok := a.X.Type().Underlying().(*types.Slice); ok {
 			hn, _ := g.elemHeap(sl.Elem())
@@ -704,15 +731,33 @@ func isPlaceInstr(v ssa.Value, direct map[*ssa.Alloc]bool) bool {
 
 // typeHeaps: heaps holding a value of type t stored through a pointer to t.
 func (g *Gen) typeHeaps(t types.Type, heaps map[string]bool) {
-	if st, ok := t.Underlying().(*types.Struct); ok {
-		for i := 0; i < st.NumFields(); i++ {
-			hn, _ := g.fieldHeap(t, i)
-			heaps[hn] = true
+	if _, ok := t.Underlying().(*types.Struct); ok {
+		for _, lf := range g.structLeaves(t) {
+			heaps[lf.name] = true
 		}
 		return
 	}
 	hn, _ := g.cellHeap(t)
 	heaps[hn] = true
+}
+
+// fieldAddrPrefix: heap-name prefix and type of the location designated by a chain of FieldAddr
+// instructions starting at a first-class pointer to a struct.
+func (g *Gen) fieldAddrPrefix(a *ssa.FieldAddr, direct map[*ssa.Alloc]bool) (string, types.Type, bool) {
+	st := deref(a.X.Type()).Underlying().(*types.Struct)
+	ft := st.Field(a.Field).Type()
+	if inner, ok := a.X.(*ssa.FieldAddr); ok {
+		p, _, ok := g.fieldAddrPrefix(inner, direct)
+		if !ok {
+			return "", nil, false
+		}
+		return p + "." + st.Field(a.Field).Name(), ft, true
+	}
+	if isPlaceInstr(a.X, direct) {
+		return "", nil, false
+	}
+	name, _ := g.fieldHeap(deref(a.X.Type()), a.Field)
+	return name, ft, true
 }
 
 func (g *Gen) callWrites(c *ssa.CallCommon, cells map[*ssa.Alloc]bool, heaps map[string]bool, direct map[*ssa.Alloc]bool) {
